@@ -19,22 +19,22 @@ CHECKS = {
          "Every (history, role, compression, opcode, FIN, RSV1-3, MASK, length class) cell (122 880) and 57 close bodies per state are executed; VIOLATION cells must fail-stop with sticky error and a 1002 close, LEGAL cells must be delivered, UNSPECIFIED cells only must not panic (exhaustive at that abstraction). A seeded family adds generated conformant prefixes + one violating frame under random buffer sizes, chunkings and read programs including abandoned messages.",
          "receiver model written from RFC 6455/7692 (internal/props/c04.go classify); length classes and histories stand for all lengths/histories", "3/C04"),
  "C05": ("fault_enumeration", "runtime monitoring with fault injection: every cut offset x 6 fault kinds on generated streams, scripted transport, lower<=complete<=upper oracle and sticky-error check",
-         "For each generated stream every byte offset and every way an io.Reader may report the failure is injected (after transient faults the transport resumes delivering in half of the executions); the number of messages reported complete must lie between what had arrived before the failing read and what the cut contains, each byte-identical, then a permanent error.",
+         "For each generated stream every byte offset and every way an io.Reader may report the failure is injected (after transient faults the transport resumes delivering in half of the executions); the number of messages reported complete must lie between what had arrived before the failing read and what the cut contains, each byte-identical, then a permanent error; read through ReadMessage, NextReader (a failed reader is tried again) or JoinMessages.",
          "streams/chunkings/read programs sampled; cut offsets x fault kinds exhaustive per stream; DEFLATE BFINAL early completion is not judged", "3/C05"),
  "C06": ("exploration", "runtime monitoring: limit model over generated histories and fragmentations, decoded 1009 close, heap-allocation counter probe",
-         "Seeded exploration of (L, read history, target size around L / huge claimed lengths / compressed targets whose wire size is around L, crossing frame, controls, chunking); within-limit messages must be readable whatever the history, over-limit ones refused before the crossing frame's payload with ErrReadLimit + 1009; allocation must not grow with the claimed length.",
+         "Seeded exploration of (L, read history, target size around L / huge claimed lengths / compressed targets whose wire size is around L, crossing frame, controls, chunking); within-limit messages must be readable whatever the history, over-limit ones refused before the crossing frame's payload with ErrReadLimit + 1009; allocation must not grow with the claimed length; the limit may have been absent or larger earlier on the connection or be re-set (same value) between messages and between Reads; a refused reader delivers nothing on retry.",
          "limit counted in wire payload bytes; runtime.MemStats.TotalAlloc as allocation counter", "3/C06"),
  "C08": ("exploration", "runtime monitoring: handler/data event log with one counter vs. wire order of an independently encoded stream; decoded pong/close echoes; complete enumeration of acceptable close codes",
-         "All 2009 acceptable close codes x reason lengths x roles are enumerated; seeded streams put control frames at every kind of position; a concurrent family checks pong payloads while other goroutines use WriteControl; a third of the client-role executions build the connection with the real Dialer.Dial with the stream glued behind the 101 reply; handler calls must match the wire exactly once, in order, correctly placed relative to delivered bytes; echoes decoded from the write log; handler errors permanent.",
+         "All 2009 acceptable close codes x reason lengths x roles are enumerated; seeded streams put control frames at every kind of position; a concurrent family checks pong payloads while other goroutines use WriteControl; a third of the client-role executions build the connection with the real Dialer.Dial with the stream glued behind the 101 reply; a fifth run under a read limit every message meets exactly; handler calls must match the wire exactly once, in order, correctly placed relative to delivered bytes; echoes decoded from the write log; handler errors permanent.",
          "single-goroutine executions so best-effort echoes are deterministic", "3/C08"),
  "C17": ("exploration", "runtime monitoring: every split of a frame stream across the handshake boundary through the real Upgrader.Upgrade (fake Hijacker) and Dialer.Dial (scripted conn)",
          "For each generated stream every split between hijacked buffer and socket x 6 hijacked reader sizes x 6 ReadBufferSizes (server) and every cut of '101 + frames' (client) is executed; the messages read must equal the messages encoded.",
          "fake http.Hijacker over the scripted conn; streams sampled, splits exhaustive", "3/C17"),
  "C07": ("exploration", "runtime monitoring: panic/process-death, read-after-exhaustion and watchdog hang detectors and a heap-allocation counter around four drivers fed by a structure-aware mutation generator; native Go coverage-guided fuzzing of the same drivers (thorough); ASan + checkptr replay",
-         "Seeded mutation of valid frame streams, server replies, proxy replies and header values (quick 288k inputs, thorough 2.9M + 4 x 1.5M fuzz executions); any panic, runtime fatal, sanitizer report, logical hang or allocation beyond 1 MiB + 16 x (received + delivered) is a violation.",
+         "Seeded mutation of valid frame streams, server replies, proxy replies and header values (quick 288k inputs, thorough 2.9M + 4 x 1.5M fuzz executions); streams are read by ReadMessage, NextReader (draining or abandoning after one Read), ReadJSON or JoinMessages, handlers default or reset with nil; any panic, runtime fatal, sanitizer report, hang (no execution finishing for 40 s, confirmed by an isolated re-run with library frames on the stack) or allocation beyond the calibrated bound is a violation.",
          "allocation measured by runtime.MemStats.TotalAlloc; fuzzing is the one non-deterministic explorer (budgeted in executions)", "3/C07"),
  "C09": ("exploration", "runtime monitoring: close sent at every step boundary of generated write programs through 7 paths, write log decoded (nothing after the close), API results checked; gated concurrent scenario with recorded call/return history checked by porcupine against a sequential model",
-         "Every close position x 7 close paths per generated program is executed; in the concurrent family the close frame is held inside the transport while other goroutines call the write API, then the history (each operation carrying the wire position of its frame) must be linearizable and nothing may follow the close frame.",
+         "Every close position x 7 close paths per generated program is executed; in the concurrent family the close frame is held inside the transport while other goroutines call the write API, then the history (each operation carrying the wire position of its frame) must be linearizable and nothing may follow the close frame; a further family sends closes through four paths after an earlier failed transport write.",
          "schedules sampled; porcupine v1.3.0 as history checker", "3/C09"),
  "C10": ("fault_enumeration", "runtime monitoring with fault injection at every transport operation index x {error, timeout, short write}; byte-exact prefix comparison with the fault-free run (replayed mask keys); deadline values used as identifiers in the transport log",
          "For each generated program (with invalid requests and distinct deadlines) every SetWriteDeadline/Write index is faulted in three ways; written bytes must be a valid-frame prefix of the clean run, nothing is written afterwards, every later message-level call fails; invalid requests write nothing; every Write is preceded by the expected deadline.",
@@ -43,28 +43,28 @@ CHECKS = {
          "W1/W2/W3 scenario families run in a plain and a -race build; zero race reports attributed to the library, no overlapping transport writes, contiguous well-formed frames, intact round trip, linearizable write-side history, at every transport Write of an own frame the armed write deadline is the one in force for that frame (values compared, not the clock), WriteControl returning a timeout error (and leaving no frame) while the connection is held.",
          "schedules sampled (thousands of short runs); the race detector sees only synchronisation it observes", "3/C11"),
  "C12": ("exploration", "runtime monitoring: requests from a handshake grammar classified MUST_ACCEPT/MUST_REJECT/UNSPECIFIED by an independent classifier; Upgrade run on a Hijacker spy and through a real net/http server; strict independent parsing of the 101 (line accounting against injection, Accept digest)",
-         "Seeded exploration of the request grammar x Upgrader settings x hostile responseHeader values; accepted iff classified valid (UNSPECIFIED not judged), 101 strictly parsed with exact line count, refusals never hijack and carry 4xx/403/426.",
+         "Seeded exploration of the request grammar x Upgrader settings x hostile responseHeader values; accepted iff classified valid (UNSPECIFIED not judged), 101 strictly parsed with exact line count, refusals never hijack and carry 4xx/403/426 (through Upgrader.Error exactly once when set); the deployment context (Unix-socket listener, TLS, remote address, headers pre-set by middleware) is varied and must not matter.",
          "classifier internal/props/c12.go; strict parser internal/httpx; SHA-1/base64 digest typed from the RFC", "3/C12"),
  "C13": ("exploration", "runtime monitoring: (Host, Origin) pairs constructed so the expected verdict is known by construction, through direct Upgrade calls and a real net/http server (absolute-form targets for exotic hosts)",
-         "Origins are built from the Host by identity/case variation (must be upgraded) or by edits, label changes, port changes, userinfo/path/fragment tricks, Unicode look-alikes, different invalid bytes, junk (must get 403).",
+         "Origins are built from the Host by identity/case variation (must be upgraded) or by edits, label changes, port changes, userinfo/path/fragment tricks, Unicode look-alikes, different invalid bytes, junk (must get 403); extra request headers and the deployment context (Unix-socket listener, TLS, remote address, CORS headers pre-set on the ResponseWriter) are varied and must not matter.",
          "construction guarantees the expected answer; percent-encoded and scheme-less origins not generated", "3/C13"),
  "C14": ("exploration", "runtime monitoring: Dial over a scripted conn; the request it writes is parsed by a strict independent parser; generated reply plans (stale/wrong Accept, status, token lists, bodies, malformed heads)",
-         "Seeded exploration of URLs with known expected request target, Dialer settings, caller headers and reply plans; request line/Host/protocol headers/key freshness judged from the wire; Dial must connect iff all four reply conditions hold for this request's key, otherwise ErrBadHandshake with status, headers and <=1024 body bytes.",
+         "Seeded exploration of URLs with known expected request target, Dialer settings, caller headers and reply plans; request line/Host/protocol headers/key freshness judged from the wire; Dial must connect iff all four reply conditions hold for this request's key, otherwise ErrBadHandshake with status, headers and <=1024 body bytes (also when the body is cut by a reset or timeout); a cookie jar and several caller Cookie values must coexist; one header map dialed repeatedly is neither modified nor changes the next request.",
          "strict parser internal/httpx; key distinctness checked per worker process", "3/C14"),
  "C15": ("exploration", "runtime monitoring: real Dialer against real Upgrader over an in-memory transport with the wire watched for RSV1; raw extension offers against the Upgrader; scripted 101 replies against the Dialer; behavioural probes (does it send RSV1, does it accept a compressed frame)",
-         "All four EnableCompression pairs are connected and generated toggle/level/message sequences (WriteMessage, closed writers, writers left to the implicit close, toggles with a writer open) cross in both directions; announcement only if offered and enabled; compression in use iff the 101 carried both no_context_takeover parameters; endpoints agree.",
+         "All four EnableCompression pairs are connected and generated toggle/level/message sequences (WriteMessage, closed writers, writers left to the implicit close, toggles with a writer open) cross in both directions; announcement only if offered and enabled; compression in use iff the 101 carried both no_context_takeover parameters; endpoints agree (probed with single-frame and fragmented compressed messages incl. empty fragments; the offer may also come from the application's request header).",
          "behavioural probes instead of field inspection", "3/C15"),
  "C16": ("fault_enumeration", "runtime monitoring with fault injection at every transport operation index x {error, timeout, EOF} during Dial (direct, CONNECT proxy, TLS, TLS through tunnel) and Upgrade; blocking peers under a 50 ms timeout; Close/deadline log of the scripted conn",
-         "Every operation of every configuration is faulted; failure => nil conn, error, transport closed (before hijack: untouched); success => open and no deadline armed; with a timeout configured every I/O operation runs under a deadline no later than it; a silent peer at each phase makes Dial return.",
+         "Every operation of every configuration is faulted; failure => nil conn, error, transport closed (before hijack: untouched); success => open and no deadline armed; with a timeout configured every I/O operation runs under a deadline no later than it; a silent peer at each phase makes Dial return; dial hooks NetDialContext, NetDial and NetDialTLSContext.",
          "TLS peers in-process over an in-memory pipe; the TLS handshake inside the dial function is judged by the blocking form", "3/C16"),
  "C18": ("exploration", "runtime monitoring: configuration matrix executed against in-process loopback backends, HTTP(S) CONNECT and SOCKS5 proxies that record requests, TLS state and connection provenance, and recording dial hooks",
-         "Thorough enumerates the whole matrix (proxy kind x scheme x 8 hook subsets x credentials x certificate x host form x refusal); quick a stride sample; both tiers add all cells of the dial paths that take the proxy from the process environment (DefaultDialer, nil *Dialer, Proxy: http.ProxyFromEnvironment x scheme x certificate x port form). Exactly one CONNECT with the right target/authorization, backend only through the proxy, WebSocket request only inside verified TLS for wss, no request to unverified peers, first hop by the applicable hook.",
+         "Thorough enumerates the whole matrix (proxy kind x scheme x 8 hook subsets x credentials x certificate x host form x refusal); both tiers enumerate all cells (thorough three times) incl. Host-header overrides and a second dial after a refusal; both tiers add all cells of the dial paths that take the proxy from the process environment (DefaultDialer, nil *Dialer, Proxy: http.ProxyFromEnvironment x scheme x certificate x port form). Exactly one CONNECT with the right target/authorization, backend only through the proxy, WebSocket request only inside verified TLS for wss, no request to unverified peers, first hop by the applicable hook.",
          "loopback TCP; in-process CA (ECDSA P-256)", "3/C18"),
  "C19": ("exploration", "runtime monitoring: one PreparedMessage sent to generated sets of connections (role x negotiated x enabled x level), sequentially and from concurrent goroutines; each write log decoded independently and compared with the original payload and a WriteMessage twin",
-         "Seeded exploration of message type/size x connection sets x send/toggle/level/mutation sequences; decoded type, payload and compressed flag must match the settings at the time of the call and a twin WriteMessage.",
+         "Seeded exploration of message type/size x connection sets x send/toggle/level/mutation sequences; decoded type, payload and compressed flag must match the settings at the time of the call and a twin WriteMessage; in the concurrent mode every connection also has a WriteControl pinger and a dawdling transport (frames must stay contiguous).",
          "frame boundaries not compared", "3/C19"),
  "C20": ("exploration", "runtime monitoring: instrumented BufferPool (event log, identity, poison on Put, audit) checked after every API call against the open-writer state; transport faults at every operation index; many connections sharing one LIFO pool concurrently with every wire log decoded",
-         "Per connection the outstanding-buffer count must equal 1 exactly while a message is open and 0 otherwise after every call, Put must return the buffer taken, released buffers stay poisoned, and all sharing connections' streams stay well-formed.",
+         "Per connection the outstanding-buffer count must equal 1 exactly while a message is open and 0 otherwise after every call, Put must return the buffer taken, released buffers stay poisoned, and all sharing connections' streams stay well-formed; programs include ReadFrom sources that fail half-way, unencodable WriteJSON values, abandoned writers and Conn.Close with a message open.",
          "VerifPoolBuf hook to open the pool value; schedules of the shared family sampled", "3/C20"),
 }
 
